@@ -109,9 +109,28 @@ def run(prop: str, tier: str) -> int:
                   "mode": "threads", "threads": 8, "n": 25 if tier == "quick" else 200}, "8"))
     jobs.append(({"src": SRC, "proc": "reuse", "walk": 3, "cfgs": cfgs, "inputs": hx, "ks": [10, 0, 1, 3],
                   "mode": "reuse", "n": 150 if tier == "quick" else 1500}, "9"))
+    # address re-use histories: equally long texts, one with a literal xor key / an encoded argument / a keyword, one without
+    b64 = b"FromBase64String('ZHVjayBnb2VzIHF1YWNr')"
+    arr = b",".join(b"%d" % (c ^ 35) for c in plain)
+    pairs = [(b"$a -bxor 35 ; " + b64, b"$a -bxox 35 ; " + b64), (b"$a -bxox 35 ; " + b64, b"$a -bxor 35 ; " + b64),
+             (arr + b" -bxor 35 ", arr + b" -bxoz 35 "), (arr + b" -bxoz 35 ", arr + b" -bxor 35 "),
+             (b"FromHexString('6475636b6475636b6475636b') -xor 7", b"FromHexString('6475636b6475636b6475636b') -xoz 7"),
+             (b"get http://evil-site.net/a.exe now ok", b"get hxxp://evil-site.net/a.exe now ok")]
+    call = b"$p = [System.Convert]::FromBase64String('R1ZASERGQEg=')\n"
+    for size in (96, 200, 400, 3000, 70000):      # a text with a literal key and nothing that is decoded, then one that decodes and has no key
+        pairs.append((b"$q = $r -bxor 35 # note\n".ljust(size, b" "), (call + b"# note\n").ljust(size, b" ")))
+        pairs.append(((call + b"# note\n").ljust(size, b" "), (call + b"$q = $r -bxor 35 #\n").ljust(size, b" ")))
+    for a_, b_ in pairs:
+        assert len(a_) == len(b_)
+    hx_pairs = [(a_.hex(), b_.hex()) for a_, b_ in pairs]
+    jobs.append(({"src": SRC, "proc": "addr", "walk": -1, "cfgs": {"default": ""}, "inputs": [], "ks": [10], "mode": "addr", "pairs": hx_pairs}, "11"))
+    jobs.append(({"src": SRC, "proc": "addr-fresh", "walk": -1, "cfgs": {"default": ""}, "inputs": [b_.hex() for _a, b_ in pairs], "ks": [10], "mode": "seq"}, "11"))
     with ThreadPoolExecutor(NCPU) as ex:
         outs = list(ex.map(lambda j: worker(*j), jobs))
     events = [e for o in outs for e in o]
+    reused = [e for e in events if e.get("ev") == "Note"]
+    res.coverage["address_reuse_histories"] = {"pairs": len(reused), "allocator_reused_the_address": sum(1 for e in reused if e["address_reused"])}
+    events = [e for e in events if e.get("ev") != "Note"]
     for e in events:      # "default-again" is the default configuration built a second time in the same process
         if e.get("ev") == "NewScanner" and e["cfg"] in alias:
             e["cfg"] = alias[e["cfg"]]
